@@ -20,12 +20,20 @@ var c06NLPWords = []string{"find", "search", "show", "list", "create", "make", "
 	"file", "files", "directory", "folder", "process", "network", "ip", "port", "repo", "commit", "permission", "contents", "zip", "tar",
 	"the", "to", "a", "in", "how", "go", "up", "see", "look", "without opening", "manage", "windows", "view", "read", "text", "config", "running"}
 
+var c06HintTools = []string{"tar", "zip", "gzip", "unzip", "7z", "mkdir", "rmdir", "find", "grep", "locate", "ls", "rm", "cp", "mv", "cat", "less", "ps", "kill", "top", "chmod", "chown", "curl", "wget", "df", "du", "touch", "ip", "ifconfig", "ping", "ssh", "apt", "brew", "sed", "awk", "tail", "head"}
+
 func c06Query(t *rapid.T, cmds []database.Command) (string, string) {
 	toks := gen.Tokens(cmds)
 	fromDB := rapid.SampledFrom(append([]string{"zzqx"}, toks...))
 	word := rapid.OneOf(fromDB, fromDB, rapid.SampledFrom(c06NLPWords), gen.Word(), gen.UWord(false))
-	kind := rapid.SampledFrom([]string{"short", "short", "medium", "long", "punct"}).Draw(t, "q-kind")
+	kind := rapid.SampledFrom([]string{"short", "short", "medium", "long", "punct", "near-cap", "near-cap"}).Draw(t, "q-kind")
 	switch kind {
+	case "near-cap":
+		// 8-10 distinct content words: with the NLP additions the term list sits at the
+		// pruning cap, which is where a user's word could be crowded out
+		pool := rapid.OneOf(fromDB, fromDB, fromDB, rapid.SampledFrom([]string{"compress", "folder", "create", "directory", "find", "files", "delete", "file", "show", "process", "download", "extract", "archive", "install", "network", "permission", "search", "text", "disk", "usage"}))
+		ws := rapid.SliceOfNDistinct(pool, 8, 10, func(s string) string { return strings.ToLower(s) }).Draw(t, "near-cap-words")
+		return strings.Join(ws, " "), kind
 	case "short":
 		return gen.TextOf(word, 1, 4).Draw(t, "q"), kind
 	case "medium":
@@ -45,6 +53,12 @@ func TestC06_Retain(t *testing.T) {
 	p := nlp.NewQueryProcessor()
 	rapid.Check(t, func(t *rapid.T) {
 		cmds, cls := gen.DB(t, gen.CmdOpts{Platforms: true, Unicode: rapid.IntRange(0, 3).Draw(t, "u") == 0}, []int{0, 1, 3, 10, 1})
+		if rapid.Bool().Draw(t, "hint-pack") {
+			// commands named after the tools the NLP stage likes to suggest, so its hints are indexed terms
+			for _, h := range rapid.SliceOfNDistinct(rapid.SampledFrom(c06HintTools), 3, 10, func(s string) string { return s }).Draw(t, "hints") {
+				cmds = append(cmds, database.Command{Command: h + " " + gen.Word().Draw(t, "hint-arg"), Description: h})
+			}
+		}
 		db := gen.Load(t, cmds)
 		q, kind := c06Query(t, cmds)
 		f := false
